@@ -257,3 +257,60 @@ Definition py_slice {A} (s : list A) (start stop : Z) : list A :=
   firstn (Z.to_nat (stop - start)) (skipn (Z.to_nat start) s).
 
 Definition bin_gc_lo (s : list ascii) (start stop : Z) : Q * Q := gc_lo (py_slice s start stop).
+
+(* ---- the gc / rmask columns of the pooled reference (load_sample_block, combine_probes) ------------------- *)
+(* fa: the FASTA as a function from a sequence name to its characters (None: no FASTA given);
+   gc_first: the gc column of the block's first file by sample id, if that file has one.
+   A block's column is None when the block's table has no such column.
+
+       if fa_fname and (fix_rmask or fix_gc):  gc, rmask = get_fasta_stats(cnarr1, fa_fname)
+                                               if fix_gc: ref_columns["gc"] = gc
+                                               if fix_rmask: ref_columns["rmask"] = rmask
+       elif "gc" in cnarr1 and fix_gc:         ref_columns["gc"] = cnarr1["gc"]                        *)
+Definition fa_stats (seq_of : string -> list ascii) (bins : list bin) : list (Q * Q) :=
+  map (fun b => bin_gc_lo (seq_of (b_chrom b)) (b_start b) (b_end b)) bins.
+
+Definition block_gc (fa : option (string -> list ascii)) (fix_gc fix_rmask : bool)
+  (gc_first : option (list Q)) (bins : list bin) : option (list Q) :=
+  match fa with
+  | Some seq_of =>
+      if fix_rmask || fix_gc then (if fix_gc then Some (map fst (fa_stats seq_of bins)) else None)
+      else (if fix_gc then gc_first else None)
+  | None => if fix_gc then gc_first else None
+  end.
+
+Definition block_rmask (fa : option (string -> list ascii)) (fix_gc fix_rmask : bool) (bins : list bin)
+  : option (list Q) :=
+  match fa with
+  | Some seq_of => if fix_rmask || fix_gc then (if fix_rmask then Some (map snd (fa_stats seq_of bins)) else None) else None
+  | None => None
+  end.
+
+(* pd.concat of the target and the antitarget table: a column exists if either table has it, the rows of a table
+   without it hold NaN (None) *)
+Definition opt_col (n : nat) (c : option (list Q)) : list (option Q) :=
+  match c with Some l => map Some l | None => repeat None n end.
+
+Record gcrow := mkGc { g_bin : bin; g_gc : option Q; g_rmask : option Q }.
+
+Definition gc_rows (bins : list bin) (g r : option (list Q)) : list gcrow :=
+  map (fun p => mkGc (fst (fst p)) (snd (fst p)) (snd p))
+      (combine (combine bins (opt_col (length bins) g)) (opt_col (length bins) r)).
+
+Definition is_some_col (c : option (list Q)) : bool := match c with Some _ => true | None => false end.
+
+(* combine_probes: the target block is loaded with fix_rmask = False, the antitarget block with the caller's flags;
+   an antitarget block without bins (no files, or empty files) is not concatenated.
+   Result: (has a gc column, has an rmask column, rows in genomic order). *)
+Definition pool_gc (fa : option (string -> list ascii)) (do_gc do_rmask : bool)
+  (tbins abins : list bin) (tgc agc : option (list Q)) : bool * bool * list gcrow :=
+  let tg := block_gc fa do_gc false tgc tbins in
+  let tr := block_rmask fa do_gc false tbins in
+  let ag := block_gc fa do_gc do_rmask agc abins in
+  let ar := block_rmask fa do_gc do_rmask abins in
+  let srt := sort_regions (fun r => bin_proj (g_bin r)) in
+  match abins with
+  | [] => (is_some_col tg, is_some_col tr, srt (gc_rows tbins tg tr))
+  | _ => (is_some_col tg || is_some_col ag, is_some_col tr || is_some_col ar,
+          srt (gc_rows tbins tg tr ++ gc_rows abins ag ar))
+  end.
